@@ -154,3 +154,66 @@ def refobjects(res):
     res.samples.append(recs[len(recs) // 3])
     res.notes.append("reference objects: all op sequences of length < %d over %d values as prefix, then every (op, ret): %d cases" % (maxlen, V, len(recs)))
     shutil.rmtree(wd, ignore_errors=True)
+
+
+def register_harness(res):
+    """C18b: register harness around an arbitrary at-most-once server."""
+    import random
+    rng = random.Random(seed() * 1000 + 18)
+    q = res.tier == "quick"
+    wd = workdir("C18b-%s" % res.tier)
+    # design level: all interleavings of the harness spec
+    os.makedirs(GEN, exist_ok=True)
+    plans = [(1, 2, 1, "nondup", False), (1, 1, 2, "dup", True), (2, 1, 1, "ordered", False)]
+    if not q:
+        plans += [(1, 2, 1, "dup", True), (1, 2, 1, "ordered", True), (2, 2, 1, "nondup", False), (1, 1, 2, "nondup", True), (1, 3, 1, "nondup", False)]
+    for (S, C, P, net, lossy) in plans:
+        cfg = os.path.join(GEN, "MCRegisterHarness_%d_%d_%d_%s_%s.cfg" % (S, C, P, net, lossy))
+        open(cfg, "w").write("SPECIFICATION Spec\nCONSTANTS\n  S = %d\n  C = %d\n  PutCount = %d\n  NetKind = \"%s\"\n  Lossy = %s\n  MaxNet = 4\n"
+                             "CONSTRAINT Bound\nINVARIANT OneOutstanding\nINVARIANT HistoryWellFormed\nINVARIANT ClientsFollowProtocol\n"
+                             "INVARIANT AwaitingMatchesHistory\nCHECK_DEADLOCK FALSE\n" % (S, C, P, net, "TRUE" if lossy else "FALSE"))
+        r = run_tlc("MCRegisterHarness.tla", cfg, workers=8, timeout=2400, heap="8g", name="mcreg")
+        res.add_tlc(r, "MCRegisterHarness[S=%d,C=%d,puts=%d,%s%s]" % (S, C, P, net, ",lossy" if lossy else ""))
+        if not r["ok"]:
+            raise ToolError("MCRegisterHarness: %s violated on the SPEC\n%s" % (r["violated"], r["out"][-3000:]))
+    # real models
+    systems = []
+    for (S, C, P, net, lossy) in plans + [(1, 2, 2, "nondup", False)]:
+        systems.append(dict(servers=S, clients=C, put_count=P, network=net, lossy=lossy, max_states=3000 if q else 20000))
+    sp = os.path.join(wd, "systems.ndjson")
+    rp = os.path.join(wd, "recs.ndjson")
+    op = os.path.join(wd, "out.json")
+    write_ndjson(sp, systems)
+    run_vh(["register", "--in", sp, "--out", rp], timeout=3000)
+    recs = read_ndjson(rp)
+    for x in recs:
+        if x.get("summary") and x.get("panicked"):
+            res.violation("panic/register_harness", dict(check="panic", system=systems[x["sys"] - 1]))
+    r = run_tlc("JudgeRegister.tla", "cfg/empty.cfg", env=dict(SYSTEMS=sp, RECS=rp, OUT=op), timeout=3000, heap="10g", name="jreg")
+    if not r["ok"]:
+        raise ToolError("register judge failed: " + r["out"][-2500:])
+    o = json.load(open(op))
+    nt = 0
+    for j in o["states"]:
+        nt += 1 if j["nontrivial"] else 0
+        for f in j["failed"]:
+            res.violation("%s/register_harness" % f, dict(check=f, system=systems[j["sys"] - 1], state=recs[j["idx"] - 1]["state"]))
+    res.traces += len(systems)
+    res.evaluations += len(o["states"])
+    res.nontrivial += nt
+    st = [x for x in recs if not x.get("summary")]
+    res.samples.append(dict(system=systems[0], state=st[len(st) // 2]["state"]))
+    res.notes.append("register harness: %d reachable states of %d real models judged (log mirrors tester, protocol, well-formedness)" % (len(o["states"]), len(systems)))
+    shutil.rmtree(wd, ignore_errors=True)
+
+
+def c18(res):
+    refobjects(res)
+    register_harness(res)
+    res.rule = ("(a) reference objects: every (object state reached by a prefix, op, ret) within bounds: invoke / is_valid_step / "
+                "is_valid_history vs RefObjects.tla; (b) RegisterActor clients + record hooks around a chaos server (answers each "
+                "request at most once, any order, any value, or never) on all network kinds: every reachable state of the real "
+                "model: recorded tester history = projection of the client-visible message log, well-formed, one outstanding "
+                "operation, fresh ids; the same system is model-checked as a TLA+ spec (MCRegisterHarness)")
+    res.assumptions += ["the write-once variant (WORegisterActor) shares the client code path; only its reference object and its "
+                        "server adapter (C15) are exercised, not a separate harness model"]
